@@ -241,7 +241,7 @@ int c15_run(const char *tier) {
 	ex_spec_t e = { .harness = "c15.tree", .ncases = ntrees, .gen = tree_gen, .label = "c15.tree" };
 	ex_map(&e);
 	uint8_t param[1] = {0}; const char *d = getenv("VERIF_DEPTH");
-	e2_spec_t s = { .harness = "c15.hist", .param = param, .nparam = 1, .nevents = H_EVENTS, .max_depth = d ? atoi(d) : (thorough ? 12 : 8), .label = "c15.hist", .evname = h_evname };
+	e2_spec_t s = { .harness = "c15.hist", .param = param, .nparam = 1, .nevents = H_EVENTS, .max_depth = d ? atoi(d) : (thorough ? 12 : 8), .label = "c15.hist", .evname = h_evname, .audit = thorough };
 	e2_explore(&s);
 	rep_count("states", s.states + e.distinct_outcomes); rep_count("transitions", s.transitions + e.done); rep_count("executions", s.execs + e.done);
 	rep_flag("exhaustive", s.exhaustive && e.exhaustive);
